@@ -110,3 +110,82 @@ Definition ok_sort_params (c : template * list string * option (list string)) : 
   opt_eqb (list_eqb String.eqb) (sort_params_by_path (fun x => x) t declared) obs.
 
 Definition mismatches_sort_params := mismatches ok_sort_params.
+
+(** C04 / C05: the OAS table against observed wire forms and decoded values. *)
+From V Require Import Model.OasTable.
+
+Definition value_eqb (a b : value) : bool :=
+  match a, b with
+  | VPrim x, VPrim y => String.eqb x y
+  | VArr x, VArr y => list_eqb String.eqb x y
+  | VObj x, VObj y => list_eqb pair_eqb x y
+  | _, _ => false
+  end.
+
+(** C05 (client side): observed = what the generated client put on the wire, unescaped:
+    a single string for path / header / cookie, decoded pairs (sorted by key, as the client's
+    url.Values.Encode emits them) for query. *)
+Inductive wire := WSingle (s : string) | WPairs (l : list (string * string)).
+
+Fixpoint insert_pair (p : string * string) (l : list (string * string)) : list (string * string) :=
+  match l with
+  | [] => [p]
+  | q :: r => match String.compare (fst p) (fst q) with
+              | Gt => q :: insert_pair p r
+              | _ => p :: l
+              end
+  end.
+(* stable insertion sort by key: equal keys keep their relative order *)
+Definition sort_pairs (l : list (string * string)) : list (string * string) :=
+  fold_right insert_pair [] l.
+
+Definition table_wire (loc : location) (st : option style) (ex : option bool) (name : string) (v : value) : option wire :=
+  let s := match st with Some s => s | None => default_style loc end in
+  let e := match ex with Some e => e | None => default_explode s end in
+  match loc, s with
+  | LQuery, (Form | DeepObject) => Some (WPairs (sort_pairs (ser_query s e name v)))
+  | LCookie, Form => Some (WSingle (ser_simple e v))   (* cookie values use the simple value syntax *)
+  | (LPath | LHeader), Simple => Some (WSingle (ser_simple e v))
+  | LPath, Label => Some (WSingle (ser_label e v))
+  | LPath, Matrix => Some (WSingle (ser_matrix e name v))
+  | _, _ => None
+  end.
+
+Definition wire_eqb (a b : wire) : bool :=
+  match a, b with
+  | WSingle x, WSingle y => String.eqb x y
+  | WPairs x, WPairs y => list_eqb pair_eqb x y
+  | _, _ => false
+  end.
+
+Definition ok_wire (c : location * option style * option bool * string * value * wire) : bool :=
+  let '(loc, st, ex, name, v, obs) := c in
+  opt_eqb wire_eqb (table_wire loc st ex name v) (Some obs).
+
+Definition mismatches_wire := mismatches ok_wire.
+
+(** C04 (server side): parsing the observed wire form with the table's parser gives the value
+    the generated server handed to the handler. *)
+Definition table_parse (loc : location) (st : option style) (ex : option bool) (name : string)
+           (sh : shape) (w : wire) : option value :=
+  let s := match st with Some s => s | None => default_style loc end in
+  let e := match ex with Some e => e | None => default_explode s end in
+  match loc, s, w with
+  | LQuery, Form, WPairs q => parse_query Form e name sh q
+  | LCookie, Form, WSingle x => parse_simple e sh x
+  | (LPath | LHeader), Simple, WSingle x => parse_simple e sh x
+  | LPath, Label, WSingle x => parse_label e sh x
+  | _, _, _ => None
+  end.
+
+Definition ok_decode (c : location * option style * option bool * string * shape * wire * value) : bool :=
+  let '(loc, st, ex, name, sh, w, decoded) := c in
+  opt_eqb value_eqb (table_parse loc st ex name sh w) (Some decoded).
+
+Definition mismatches_decode := mismatches ok_decode.
+
+(** C06 *)
+From V Require Import Model.Wrapper.
+Definition ok_wrapper (c : list param * list wevent) : bool :=
+  list_eqb wevent_eqb (wrapper 0 (fst c)) (snd c).
+Definition mismatches_wrapper := mismatches ok_wrapper.
